@@ -257,3 +257,19 @@ PROPS["C11"] = dict(
         dict(name="generated", run="^TestGeneratedHistories$", quick=8000, thorough=400000, shards=16, timeout_thorough=3000),
     ],
 )
+
+PROPS["C16"] = dict(
+    pkg="c16", level="exploration",
+    technique="property-based testing (rapid) against time.Time.Format with an own copy of the documented flag-to-layout table; parse-back with time.Parse",
+    claim=("Generated instants (years -100..12000, boundary nanoseconds, UTC / fixed offsets at minute granularity / named tzdata zones incl. DST "
+           "and half-hour zones) are logged under generated configurations (8 date/time/microsecond flag combinations, local-time flag, "
+           "sequences of SetUTCMode calls with 0-3 booleans as methods or options, no layout / SetTimeFormat() / 14 custom layouts incl. empty "
+           "arguments, three formats, through WriteThru and through the log/slog adapter); the printed time field must equal "
+           "instant.In(zone).Format(layout) computed by the harness, and must parse back with that layout to the instant truncated to the "
+           "layout's precision where the layout has date, time and a numeric offset."),
+    note="Parse-back is skipped for layouts with zone abbreviations (MST), for years outside 0..9999 and for zones whose offset has seconds (historical local mean time) - all limitations of package time's layouts, not of the logger.",
+    rule=("rapid draws the scenario. Non-trivial: a non-UTC zone, or a custom layout, or sub-microsecond digits; distinct = (format, path, flags, "
+          "local-time flag, UTC mode, layout, zone kind, millennium)."),
+    assumptions=["time/tzdata embedded in the harness binary provides the named zones"],
+    stages=[dict(name="timestamps", run="^TestTimestamps$", quick=40000, thorough=1600000, shards=16, timeout_thorough=3000)],
+)
